@@ -154,15 +154,24 @@ def correspondence(ctx, gen_ok):
         srt = 1 if type(ms[j]).__name__ == 'MeshTri1' else 0
         mm_cases.append((f'({cnat(srt)}, {clist([zcols(m.p) for m in ms])}, {cnat(j)}, {cmat_nat(ms[j].t)})',
                          f'({zcols(out[j].p)}, {cmat_nat(out[j].t)})', ('matmul', len(ms), j)))
+    from skfem.generic_utils import OrientedBoundary
     for k in range(ctx.n(16, 60)):
         q = rand_mesh1('MeshQuad1', rng, size=[2, int(rng.integers(2, 4))], integer=True)
         nf = q.facets.shape[1]
         b = rng.choice(nf, size=int(rng.integers(0, nf + 1)), replace=False).astype(np.int32)
-        q = q.with_boundaries({'b': b})
+        if len(b) and k % 2:
+            b = np.concatenate([b, b[:2]])                      # repeated entries
+        ori = rng.integers(0, 2, size=len(b))
+        ori[q.f2t[1, b] == -1] = 0
+        q = q.with_boundaries({'b': b, 'o': OrientedBoundary(b, ori)})
         for style in (None, 'x'):
             M = q.to_meshtri(style=style)
-            carry_cases.append((f'({cmat_nat(q.facets.T)}, {cmat_nat(M.facets.T)}, {cnats(b)})',
-                                f'(Some {cnats(np.asarray(M.boundaries["b"]))})', ('carry', style, len(b))))
+            tbl = f'{cnat(M.p.shape[1])}, {cmat_nat(q.facets.T)}, {cmat_nat(M.facets.T)}'
+            carry_cases.append((f'(inl ({tbl}, {cnats(b)}))', f'({cnats(np.asarray(M.boundaries["b"]))}, [])',
+                                ('carry', style, len(b))))
+            go = M.boundaries['o']
+            carry_cases.append((f'(inr ({tbl}, {cnat(q.t.shape[1])}, {cmat_z(q.f2t)}, {cnats(M.f2t[0])}, {cnats(b)}, {cbools(ori)}))',
+                                f'({cnats(np.asarray(go))}, {cbools(go.ori)})', ('carry-oriented', style, len(b))))
     if not gen_ok:
         return
     imp = 'Require Import Model.C18_Surgery Gen.C18Gen.\nFrom Coq Require Import List Arith Bool ZArith.'
@@ -210,8 +219,12 @@ Definition matmul (c : nat * list (list key) * nat * mat nat) : list key * mat n
   let '(srt, ps, j, t) := c in
   (gen_dedupe_p (concat ps),
    maybe_sort srt (gen_dedupe_t (concat ps) (map (map (fun v => v + gen_matmul_offset (map (@length key) ps) j)) t))).
-Definition carry (c : mat nat * mat nat * list nat) : option (list nat) :=
-  let '(OF, NF, b) := c in gen_carry_boundary OF NF b.
+Definition carry (c : (nat * mat nat * mat nat * list nat) +
+                      (nat * mat nat * mat nat * nat * mat Z * list nat * list nat * list bool)) : list nat * list bool :=
+  match c with
+  | inl (nv, OF, NF, b) => (gen_carry_boundary nv OF NF b, [])
+  | inr (nv, OF, NF, nt, f2t, f2t0', b, ori) => gen_carry_oriented nv nt OF NF f2t f2t0' b ori
+  end.
 '''
     jobs = [
         lambda: ctx.corr('reix', imp, 'reix_all', 'reix_out_eqb', reix_cases, defs=defs, nontrivial=lambda r: r[3] >= 2),
@@ -228,7 +241,7 @@ Definition carry (c : mat nat * mat nat * list nat) : option (list nat) :=
                          nontrivial=lambda r: r[2] >= 2),
         lambda: ctx.corr('matmul_list', imp, 'matmul', '(pair_eqb keys_eqb natss_eqb)', mm_cases, defs=defs,
                          nontrivial=lambda r: r[2] >= 2),
-        lambda: ctx.corr('to_meshtri_boundaries', imp, 'carry', '(option_eqb nats_eqb)', carry_cases, defs=defs,
+        lambda: ctx.corr('to_meshtri_boundaries', imp, 'carry', '(pair_eqb nats_eqb (list_eqb Bool.eqb))', carry_cases, defs=defs,
                          nontrivial=lambda r: r[2] >= 2),
     ]
     from concurrent.futures import ThreadPoolExecutor
@@ -252,11 +265,6 @@ def run_op(ctx, op, m, rng):
     except Exception as e:                                # noqa: BLE001 — an exception IS a failing input
         tb = traceback.format_exc()
         key = f'exception:{op.__name__[3:]}:{name}:{type(e).__name__}'
-        if isinstance(e, StopIteration) and op is O.op_to_meshtri and any(
-                len(set(np.asarray(b).tolist())) < len(b) for b in (m.boundaries or {}).values()):
-            # open defect (reported): a named boundary that lists a facet twice — e.g. the two-sided oriented interface
-            # that remove_duplicate_nodes produces — makes the shared-iterator scan of to_meshtri run dry
-            key = 'to_meshtri:repeated-facet-in-boundary'
         ctx.fail(key, f'{op.__name__[3:]} on a {name} raises {type(e).__name__}: {e}',
                  {'mesh': _mj(m), 'op': op.__name__, 'rng_state': _state_json(state), 'traceback': tb[-1500:],
                   'boundary_dtypes': {} if isinstance(m, list) else
